@@ -17,7 +17,7 @@ RULE = ('random action programs: include tree <= 6 nodes (names also textually r
         'histories of up to 3 commits on ONE ActionState/Configurator; repeated (equal) plain-None declarations; callables of 8 kinds '
         '(closure, falsy callable list / __bool__ False / __len__ 0 objects, partial, bound method, no callable, raising) receiving args/kw they check; '
         'in direct mode declared through ActionState.action (with and without its defaults), old-style tuples of 6/7/8 positions or ready-made dicts '
-        'appended to ActionState.actions; <= 4 discriminators (truthy tuples or the falsy hashables (), frozenset(), 0, \'\') + None + Deferred, phases from {-30,-20,-10,0,5} (+ rarely order=None), declared either '
+        'appended to ActionState.actions; <= 4 discriminators (truthy tuples or the falsy hashables (), frozenset(), 0, \'\') + None + Deferred, phases from {-30,-20,-10,0,5} (+ order=None, also mixed with order 0 inside the default phase; judged against spec_exec), declared either '
         'directly on ActionState or through real nested Configurator.include configurators, executed with '
         'execute_actions()/commit(); plus resolveConflicts() driven directly on a fresh ConflictResolverState; '
         'non-trivial = at least two actions share a non-None discriminator (so the conflict machinery decides '
@@ -29,7 +29,7 @@ ASSUMPTIONS = ['a commit in which a callable raises is outside the property: onl
                'the same action value twice; list.remove removes the first equal one); the theorems that need distinct '
                'identities (wf_ids) do not cover repetitions, the comparison with the specification does',
                'action callables touch the action state only by declaring further actions; for the property theorems they do not raise',
-               "order is an int for the theorems (order=None is modelled: 'order or 0', min_order = None)",
+               "order is an int for the theorems and the flat specification (order=None is modelled: 'order or 0', min_order = None, and compared with spec_exec)",
                'discriminators are compared by ==/hash; a Deferred is private to its action and its function is pure',
                'include specs are distinct (ActionState.processSpec de-duplication is not modelled)']
 TRUSTED = ['hand-written model coq/Model/C04.v of resolveConflicts and undefer/Deferred (shape-pinned + piecewise facts, validated by correspondence)',
@@ -431,6 +431,14 @@ def gen_case(rng, small=False):
         acts.append(mk(0, -30))
     if rng.random() < 0.03:
         acts = []
+    # order=None MIXED with order 0 inside the default phase (both mean phase 0): half of the phase-0 actions say None
+    if rng.random() < 0.08:
+        def mix(l):
+            for a in l:
+                if a['order'] == 0 and rng.random() < 0.5:
+                    a['order'] = None
+                mix(a['adds'])
+        mix(acts)
     case = {'mode': mode, 'nodes': nodes, 'actions': acts}
     if rng.random() < 0.3:
         kinds_ = ['tuple', 'frozenset'] if mode == 'include' else ['tuple', 'frozenset', 'zero', 'empty']
@@ -551,6 +559,15 @@ SEEDS += [
     {'mode': 'direct', 'nodes': [[0, 'a'], [0, 'a_v2'], [2, 'b']], 'actions': [A(0, 1, 1, 0), A(1, 1, 3, 0), A(2, 2, 0, 0)]},
     {'mode': 'direct', 'nodes': [[0, 'a'], [0, 'a0']], 'actions': [A(0, 1, 1, -10), A(1, 1, 2, 0)]},
     {'mode': 'direct', 'nodes': [[0, 'a'], [1, 'b'], [0, 'a/b'], [3, 'c']], 'actions': [A(0, 1, 2, 0), A(1, 1, 4, 0)]},
+]
+
+
+SEEDS += [
+    # order=None and order 0 are the same phase: override / conflict / declaration order across the two spellings
+    {'mode': 'include', 'nodes': [[0, 's1']], 'actions': [A(0, 1, 1, 0), A(1, 1, 0, None)]},
+    {'mode': 'direct', 'nodes': [[0, 'a']], 'actions': [A(0, 1, 0, None), A(1, 1, 1, 0), A(2, None, 0, None), A(3, None, 0, 0)]},
+    {'mode': 'direct', 'nodes': [], 'actions': [A(0, 1, 0, 0), A(1, 1, 0, None)]},
+    {'mode': 'direct', 'nodes': [[0, 'a']], 'actions': [A(0, None, 0, None), A(1, 2, 1, 0), A(2, None, 0, 0), A(3, 2, 0, None), A(4, None, 0, 5)]},
 ]
 
 
@@ -1056,10 +1073,13 @@ def spec_holds(case, obs, spec):
     verdict = None
     rounds = [(obs[0], s_commit, s_exec, flags)] + [(o, r[0], r[1], r[2]) for o, r in zip(obs[2], later)]
     for (out, log), sc, sx, fl in rounds:
-        if not ids_ok or not fl[1]:
+        if not ids_ok:
             continue
         got = [_reduce(out), log]
-        if fl[2] and got != [_reduce_spec(sc[0]), sc[1]]:
+        # order=None is a declared way of saying "the default phase" (`order or 0`): the re-entrant reading of the
+        # specification (spec_exec: phase = order or 0, no phase memo after a None-order action) is compared on such cases
+        # too; the flat specification and the theorems keep to int orders (wf_orders)
+        if fl[1] and fl[2] and got != [_reduce_spec(sc[0]), sc[1]]:
             return False
         if got != [_reduce_spec(sx[0]), sx[1]]:
             return False
@@ -1124,6 +1144,8 @@ def kinds(case, obs):
         k.append('multi-phase')
     if any(a['order'] is None for a in acts):
         k.append('order-none')
+        if any(a['order'] == 0 for a in acts):
+            k.append('order-none-mixed-with-0')
     fz = _falsy(case)
     if any(a['disc'][1] in fz for a in acts):
         k.append('falsy-discriminator')
@@ -1205,6 +1227,11 @@ def targeted(broken, disagreements, rng):
             acts = [A(i, d, nd, o) for i, (d, nd, o) in enumerate(combo)]
             acts[-1] = dict(acts[-1], adds=[A(3, child[0], child[1], child[2])])
             out.append({'mode': 'direct', 'nodes': nodes, 'actions': acts})
+    # the default phase spelled both ways (0 and None) on the tree root/a
+    optsn = [(d, n, o) for d in (None, 1) for n in (0, 1) for o in (0, None, 5)]
+    for combo in itertools.product(optsn, repeat=3):
+        if any(o is None for _, _, o in combo):
+            out.append({'mode': 'direct', 'nodes': [[0, 'a']], 'actions': [A(i, d, nd, o) for i, (d, nd, o) in enumerate(combo)]})
     # the same small scope on trees whose include names are textually related (a / ab; a, b / 'a/b')
     for nodes2 in ([[0, 'a'], [0, 'ab']], [[0, 'a'], [1, 'b'], [0, 'a/b']]):
         nn2 = len(nodes2)
